@@ -24,12 +24,15 @@ def parseRec (before text : String) (s : String) : Option Rec :=
     some ⟨a, w1, d1, t1, u, w2, if d2 == "=" then before else d2, if t2 == "=" then text else t2⟩
   | _ => none
 
-inductive Mode | plain | double | stop (k : Nat)
+inductive Mode | plain | double | stop (k : Nat) | collect (order : String)
 
 def parseMode (s : String) : Option Mode :=
   match s.splitOn ":" with
   | ["plain"] => some .plain
   | ["double"] => some .double
+  | ["collect"] => some (.collect "order")
+  | ["collect-rev"] => some (.collect "rev")
+  | ["collect-mix"] => some (.collect "mix")
   | ["stop", k] => k.toNat?.map .stop
   | _ => none
 
@@ -102,7 +105,7 @@ def handleEnum (m : Mode) (before text : String) (t : T) (recs : List Rec) (call
     tagIf ((rootSplit t).isSome && t.rooted) "f22region" ++
     tagIf (t.kids.any fun k => k.2.isLeaf) "tip-at-root" ++
     tagIf (innerBranchesShape t == inner) "shapecount" ++
-    (match m with | .plain => ["plain"] | .double => ["double"] | .stop _ => ["stop"])
+    (match m with | .plain => ["plain"] | .double => ["double"] | .stop _ => ["stop"] | .collect o => ["collect", "collect-" ++ o])
   if !scope then
     (if t.uniqueTips then handleGeneral m before text t recs calls wfF dumpF textF ("general" :: tags)
      else ⟨.pass, "skip-dupnames" :: tags, ""⟩) else
